@@ -33,3 +33,47 @@ func ZZ_C12_fp448_InvSqrt_alias_safe() {
 	zzAssert(zzIff(ok, ok2), "same quadratic-residue verdict when z aliases an input")
 	zzAssert(zzImplies(ok, res == z), "same result when z aliases an input")
 }
+
+// the same aliasing question for the arithmetic entry points on the real portable code (no stubs):
+// z = x, z = y and x = y give what the non-aliased call gives, for every pair of field strings
+//
+//zz: prop=C12 also=C11 tier=quick backend=bv timeout=600
+func ZZ_C12_fp448_arithmetic_alias_safe() {
+	var x, y Elt
+	zzFill("x", &x)
+	zzFill("y", &y)
+	bin := func(name string, op func(z, x, y *Elt)) {
+		var z Elt
+		op(&z, &x, &y)
+		zx := x
+		op(&zx, &zx, &y)
+		zzAssert(z == zx, name+": z = x")
+		zy := y
+		op(&zy, &x, &zy)
+		zzAssert(z == zy, name+": z = y")
+		var s, s2 Elt
+		xx := x
+		op(&s, &x, &xx)
+		op(&s2, &x, &x)
+		zzAssert(s == s2, name+": x = y")
+	}
+	un := func(name string, op func(z, x *Elt)) {
+		var z Elt
+		op(&z, &x)
+		zx := x
+		op(&zx, &zx)
+		zzAssert(z == zx, name+": z = x")
+	}
+	switch zzPick("operation", 0, 1, 2, 3, 4) {
+	case 0:
+		bin("Add", Add)
+	case 1:
+		bin("Sub", Sub)
+	case 2:
+		bin("Mul", Mul)
+	case 3:
+		un("Sqr", Sqr)
+	case 4:
+		un("Neg", Neg)
+	}
+}
